@@ -1,6 +1,7 @@
 /* h_nonce: C17 seal-history logger on top of sess.h (two in-memory TLS peers, pinned entropy / PRNG / clock).
    One scenario per input line; commands separated by " ; " (same style as h_sess.c):
      new k=v ...        as h_sess (cv= sv= suite= cauth= ccb= scb= key= resume= ticket= name= seed= cca= keepkeys=)
+                        psk=1 (external TLS 1.3 PSK on both sides) smaxed=<n> (server option tls13SessionMaxEarlyData)
                         plus maxed=<n>  (server: tls13SessionMaxEarlyData, early data offered in tickets / accepted)
                              sgroup=<id> (server supports only this key-exchange group: 24 = secp384r1 forces a HelloRetryRequest)
      hs | pumpv         pump both ways until quiescent
@@ -281,6 +282,8 @@ static void do_new(char **a, int n)
         else if (!strcmp(a[i], "seed")) c.seed = strtoull(v, NULL, 10);
         else if (!strcmp(a[i], "keepkeys")) c.keep_skeys = atoi(v);
         else if (!strcmp(a[i], "maxed")) maxed = atoi(v);
+        else if (!strcmp(a[i], "smaxed")) c.smaxed = atoi(v);     /* sess.h: server option tls13SessionMaxEarlyData */
+        else if (!strcmp(a[i], "psk")) c.psk = atoi(v);           /* sess.h: external TLS 1.3 PSK on both sides */
         else if (!strcmp(a[i], "sgroup")) sgroup = atoi(v);
     }
     /* a new connection: per-connection log markers (the Q events of the previous connection first) */
